@@ -1,5 +1,6 @@
 import UF.Compose2.ShortcutMask
 import UF.Compose2.ParsePattern
+import UF.Compose2.RegexShortcutSound
 import UF.Props.C05
 import UF.Props.C03
 /-
@@ -168,6 +169,104 @@ theorem c05_text_full_regex (px : E.ParseExt) (t : Bytes) (id : Int) (r : NetRul
   · exact c05_full_regex px.ext r q parts hre (by rw [hs, hparts]) hci hlower hhost
   · rw [hre] at hre'; cases hre'
 
+/-- `/regex/` rules, from the TEXT: the shortcut computed by the text-level model of
+    `findRegexpShortcut` (the heuristics' candidates filtered against the literals Go's parse tree
+    requires — adjacent literals merged, common prefixes of alternations factored) is a factor of
+    every lower-cased target the pattern model accepts, with or without `$match-case`. -/
+theorem c05_regex_text (p : Bytes) (mc : Bool) (u sc : Bytes) (hre : UF.isRegexPattern p = true)
+    (hsc : modelRegexpShortcut p = some sc) (h : modelPat p mc u = some true) :
+    hasSub (toLower u) (loadShortcut sc) = true := by
+  rcases loadShortcut_cases sc with h0 | h0 <;> rw [h0]
+  · exact hasSub_nil _
+  · unfold modelRegexpShortcut at hsc
+    simp only at hsc
+    split at hsc
+    · cases hsc
+    · split at hsc
+      · cases hsc; exact hasSub_nil _
+      · rename_i hq
+        cases hp : parseCore ((p.drop 1).dropLast) with
+        | none => rw [hp] at hsc; cases hsc
+        | some tree =>
+          rw [hp] at hsc
+          simp only [Option.some.injEq] at hsc
+          rcases pickLongest_sound (regexParts ((p.drop 1).dropLast)) (goReq tree) with he | ⟨l, hl, hsub⟩
+          · rw [← hsc, he]; exact hasSub_nil _
+          · rw [hsc] at hsub
+            obtain ⟨r0, hparse, hs, _⟩ := modelPat_regex_some hre h
+            have hnoci : hasPrefix ((p.drop 1).dropLast) ciPrefix = false := by
+              cases hc : hasPrefix ((p.drop 1).dropLast) ciPrefix with
+              | false => rfl
+              | true =>
+                exfalso
+                obtain ⟨z, hz⟩ := (hasPrefix_iff _ _).1 hc
+                apply hq
+                rw [hz]
+                simp [ciPrefix]
+            have hrel : FoldRel tree r0 := by
+              unfold regexRuleText at hparse
+              cases mc with
+              | false =>
+                simp only [Bool.false_eq_true, if_false, parseRE_ci, hp, Option.map_some,
+                  Option.some.injEq] at hparse
+                rw [← hparse]; exact FoldRel.foldCase tree
+              | true =>
+                simp only [if_true, parseRE, hnoci, Bool.false_eq_true, if_false, hp,
+                  Option.some.injEq] at hparse
+                rw [← hparse]; exact FoldRel.refl tree
+            exact hasSub_trans (goReq_search hrel hs.symm l hl) hsub
+
+/-- C05 from the rule TEXT for `/regex/` rules over the complete model (`parseNetRuleM`: no oracle but
+    `netip`): whenever the shortcut model answers for the rule's pattern, `Match` is unchanged when the
+    shortcut test is removed. -/
+theorem c05_text_model_regex (ext : Ext) (t : Bytes) (id : Int) (r : NetRule) (q : Request)
+    (h : parseNetRuleM ext t id = .ok r)
+    (hre : UF.isRegexPattern r.pattern = true)
+    (hdom : regexShortcutInDomain r.pattern = true)
+    (hlower : q.urlLower = toLower q.url)
+    (hhost : q.isHostnameRequest = true → hasSub q.url q.hostname = true) :
+    r.matches (withModelPat ext) q = ({ r with shortcut := [] } : NetRule).matches (withModelPat ext) q := by
+  obtain ⟨_, _, _, _, _, _, hsc⟩ := parseNetRule_pattern h
+  rcases hsc with ⟨_, hs⟩ | ⟨hre', _⟩
+  · apply c05
+    intro hm
+    rw [matchPattern_withModelPat] at hm
+    cases hsm : modelRegexpShortcut r.pattern with
+    | none => simp [regexShortcutInDomain, hsm] at hdom
+    | some sc =>
+      have hsc' : r.shortcut = loadShortcut sc := by
+        rw [hs]; simp [fullParseExt, reShortcutM, hsm]
+      cases hmp : modelPat r.pattern (r.isEnabled Facts.OptionMatchCase) (matchTarget r q) with
+      | none => simp [modelPatD, hmp] at hm
+      | some b =>
+        have : b = true := by simpa [modelPatD, hmp] using hm
+        subst this
+        have hsub := c05_regex_text r.pattern _ _ sc hre hsm hmp
+        rw [hsc', hlower]
+        refine hasSub_trans (hasSub_toLower ?_) hsub
+        unfold matchTarget
+        split
+        · rename_i hsh
+          apply hhost
+          simp only [shouldMatchHostname] at hsh
+          split at hsh
+          · simp at hsh
+          · rename_i hq; simpa using hq
+        · exact hasSub_refl _
+  · rw [hre] at hre'; cases hre'
+
+/-- C05 over the complete model for EVERY rule text: mask rules unconditionally, `/regex/` rules
+    whenever the expression is inside the modelled subset. -/
+theorem c05_text_model (ext : Ext) (t : Bytes) (id : Int) (r : NetRule) (q : Request)
+    (h : parseNetRuleM ext t id = .ok r)
+    (hdom : UF.isRegexPattern r.pattern = true → regexShortcutInDomain r.pattern = true)
+    (hlower : q.urlLower = toLower q.url)
+    (hhost : q.isHostnameRequest = true → hasSub q.url q.hostname = true) :
+    r.matches (withModelPat ext) q = ({ r with shortcut := [] } : NetRule).matches (withModelPat ext) q := by
+  cases hre : UF.isRegexPattern r.pattern with
+  | true => exact c05_text_model_regex ext t id r q h hre (hdom hre) hlower hhost
+  | false => exact c05_text_full (fullParseExt ext reShortcutM) t id r q h hre hlower hhost
+
 /-! ### Non-vacuity -/
 
 /-- `||example.org^*banner`: the shortcut is `example.org`, the compiled pattern accepts the URL, and
@@ -187,5 +286,15 @@ example : UF.isRegexPattern (lit "||example.org^") = false ∧
     Props/C05.lean (`/foo|barbaz/`) accepts a URL that lacks `barbaz`. -/
 example : modelPat (lit "/foo|barbaz/") false (lit "http://x.com/foo") = some true ∧
     hasSub (lit "http://x.com/foo") (lit "barbaz") = false := by decide
+
+/-- The pieces of the text-level shortcut model on concrete inputs: the candidates of the heuristics
+    (`ab(c)d` ↦ `...ab...d`, split at the dots), literal merging (`a`,`[b]`,`c` ↦ `abc`), an
+    alternation that requires nothing, and one whose branches share a prefix (`foo|foobar` ↦ `foo`). -/
+example : regexParts (lit "ab(c)d") = [[], [], [], lit "ab", [], [], lit "d"] := by decide
+example : itemsReq (mergeItems [.lit (lit "a") false, .lit (lit "b") false, .other none [], .lit (lit "c") false]) =
+    [lit "ab", lit "c"] := by decide
+example : altTopReq [[.lit (lit "foo") false], [.lit (lit "barbaz") false]] = [] := by decide
+example : altTopReq [[.lit (lit "foo") false], [.lit (lit "foobar") false]] = [lit "foo"] := by decide
+example : altTopReq [[.lit (lit "A") false], [.lit (lit "a") false]] = [lit "a"] := by decide
 
 end UF.C05
